@@ -133,7 +133,8 @@ def run(prop, tier, seed, replay=None):
     jobs = []
     if replay:
         meta = json.load(open(os.path.join(replay, "meta.json")))
-        jobs = [(meta["mode"], meta["seed"], meta["scenario"] + 1, meta["events"], meta["scenario"])]
+        if not meta.get("maint"):
+            jobs = [(meta["mode"], meta["seed"], meta["scenario"] + 1, meta["events"], meta["scenario"])]
     else:
         for mode, n, events in PLAN[prop]["modes"][tier]:
             split = 8 if tier == "quick" else 16
@@ -165,7 +166,7 @@ def run(prop, tier, seed, replay=None):
             tv = vlib.validate_trace(module, (trace_cfg(prop), None), out, {"Inv" + prop: [prop]}, timeout=1500)
         return job, out, crash, tv
 
-    with ThreadPoolExecutor(max_workers=min(len(jobs), max(1, vlib.NCPU // 2))) as ex:
+    with ThreadPoolExecutor(max_workers=max(1, min(len(jobs), max(1, vlib.NCPU // 2)))) as ex:
         results = list(ex.map(one, jobs))
     events_total = 0
     okres = [r for r in results if r[3] is not None and r[0][0] != "net" and not r[2]]
@@ -226,6 +227,17 @@ def run(prop, tier, seed, replay=None):
                     "limiter; every boundary event (datagram in/out decoded by an independent bencode reader, callback, API call/return, quiescence) "
                     "is judged by the observer KrpcServer!Step in TLC; modes: %s" % ", ".join(m for m, _, _ in PLAN[prop]["modes"][tier]),
                invariants=["Inv" + prop])
+    if prop == "C01" and (not replay or json.load(open(os.path.join(replay, "meta.json"))).get("maint")):
+        # the node's own background routine takes part: TableMaintainer walks the table under the read lock while
+        # replies and strangers' datagrams queue for the write lock (spec/Maintainer.tla, DESIGN 11.7); a node that
+        # stops taking datagrams, or a crash, is this property's business (full trace validation: C14 thorough, X-MAINT)
+        import fam_maint
+        mjobs = None
+        if replay:
+            mm = json.load(open(os.path.join(replay, "meta.json")))
+            mjobs = [(mm["seed"], mm["n"], mm["k"])]
+        fam_maint.run_jobs(tier, seed, v, cov, lambda kind, what: prop if kind in ("Wedged", "crash") else None, jobs=mjobs,
+                           validate=False)
     rc = v.finish()
     if not replay:      # a replay re-runs one stored case; the evidence of the last full run is left alone
         vlib.write_evidence(prop, tier, seed, cov, time.time() - t0, len(v.violations),
